@@ -473,7 +473,11 @@ def monitor_c19(rep, n, pid="C19"):
                         allow = frac(h.mrf) / rc
                         W = frac(h.tank.storage["volume"]) + up
                     else:
-                        sat0 = frac(h.total_environmental_satisfied)
+                        # what has gone downstream in this timestep so far (spill and releases), read off the arcs - not the
+                        # reservoir's own counter
+                        sat0 = sum(frac(a.vqip_in["volume"]) for a, nb in R.outs)
+                        if sat0 != frac(h.total_environmental_satisfied):
+                            bad(c, i, f"the reservoir counts {frac(h.total_environmental_satisfied)} as gone downstream in this timestep, its out-arcs record {sat0}")
                         sto0 = frac(h.tank.storage["volume"])
                         out0 = sum(frac(a.vqip_in["volume"]) for a, nb in R.outs)
                 try:
